@@ -130,6 +130,22 @@ let handle () =
     let neg = int () <> 0 in let con = int () <> 0 in
     let s = function None -> "raises" | Some true -> "reject" | Some false -> "accept" in
     s (tel_ctx_reject_gen neg con) ^ " " ^ s (del_ctx_reject_gen neg con)
+  | "print" ->
+    let h = nat () in
+    let syms = list (fun () -> let f = int () <> 0 in let d = int () <> 0 in let n = nat () in
+                      let l = (match next () with "-" -> None | s -> Some (z_of_int (int_of_string s))) in let t = coq_string (next ()) in
+                      { is_fun = f; dunder = d; nargs = n; last = l; txt = t }) in
+    (match print_model syms h with
+     | Printed sts -> String.concat " | " (List.map (fun st -> "[" ^ String.concat " " (List.map ocaml_string st) ^ "]") sts)
+     | PRaises -> "raises")
+  | "optparse" ->
+    let iv s = (try Some (z_of_int (int_of_string s)) with _ -> None) in
+    let sb = function None -> "raises" | Some true -> "accept" | Some false -> "reject" in
+    (match next () with
+     | "imin" -> let v = (match !toks with [] -> "" | _ -> next ()) in sb (parse_imin_gen (iv v))
+     | "imax" -> let v = (match !toks with [] -> "" | _ -> next ()) in sb (parse_imax_gen (v = "") (iv v))
+     | "istop" -> String.concat " " (List.map ocaml_string istop_values_gen)
+     | s -> failwith ("optparse " ^ s))
   | "defaults" ->
     Printf.sprintf "%d %s %s" (int_of_nat default_imin_gen)
       (match default_imax_gen with None -> "-" | Some m -> string_of_int (int_of_nat m))
